@@ -114,7 +114,10 @@ ScaledInField(c, fld) ==
               ELSE <<Dot>> \o TwoDigits(a % 100) \o Zeros(d - 2)
       ds == NatDigits(whole)
       body == (IF c < 0 THEN <<45>> ELSE <<>>) \o (IF fld.comma THEN Group3(ds) ELSE ds) \o frac
-  IN [fits |-> Len(body) <= fld.width, text |-> Blanks(fld.width - Len(body)) \o body]
+      \* a negative number of which nothing is left in the field (-0.37 in ###): whether the sign of what vanished is shown
+      \* is not fixed by the property - not judged (reported as "does not fit" to the caller, which skips the statement)
+      vanished == c < 0 /\ whole = 0 /\ (d = 0 \/ (d = 1 /\ ((a + 5) \div 10) % 10 = 0) \/ (d >= 2 /\ a % 100 = 0))
+  IN [fits |-> Len(body) <= fld.width /\ ~vanished, text |-> Blanks(fld.width - Len(body)) \o body]
 
 StrInField(s, n) == IF Len(s) >= n THEN SubSeq(s, 1, n) ELSE s \o Blanks(n - Len(s))
 
